@@ -64,6 +64,18 @@ def len_width(rng):
     return rng.choice(LEN_WIDTHS)
 
 
+WIDTH_NAMES_COMMON = ["message", "version", "pdu", "request-id", "error-status", "error-index", "varbinds", "varbind", "name"]
+WIDTH_NAMES_V12 = ["community"]
+WIDTH_NAMES_V3 = ["global", "msg-id", "max-size", "flags", "sec-model", "sec-params", "usm", "usm-engine-id", "usm-boots", "usm-time", "usm-user", "usm-auth", "usm-priv", "scoped-pdu", "ctx-engine-id", "ctx-name", "encrypted"]
+
+
+def widths(rng, v3):
+    """A `widths` rewrite: a few header elements of a reply written with long-form lengths."""
+    names = WIDTH_NAMES_COMMON + (WIDTH_NAMES_V3 if v3 else WIDTH_NAMES_V12)
+    k = rng.choice([1, 1, 2, 3, len(names)])
+    return {n: rng.choice([1, 2, 3, 4, 8]) if rng.random() < 0.8 else len_width(rng) for n in rng.sample(names, k)}
+
+
 def berlike(rng):
     """Octets that themselves look like BER: nested TLVs, the net-snmp Opaque wrappers for
     float / double / int64 / uint64 (9f 78 04 .., 9f 79 08 .., 9f 7a .., 9f 7b ..), a whole varbind."""
